@@ -584,6 +584,19 @@ Proof.
   - apply NoDup_map_filter, I.
 Qed.
 
+(* Go ranges over maps in an arbitrary order: everything from here on is proved for every
+   schedule that visits exactly the elements of the snapshot (any order, repetitions allowed) *)
+Definition sched_ok (sc : sched) : Prop :=
+  (forall st l x, In x (sc_deps sc st l) <-> In x l) /\
+  (forall st l x, In x (sc_out sc st l) <-> In x l).
+
+Lemma sched_id_ok : sched_ok sched_id.
+Proof. split; intros; simpl; tauto. Qed.
+
+Section WithSched.
+Variable sc : sched.
+Hypothesis sc_ok : sched_ok sc.
+
 Record RNPost (s : state) (b : N) (s' : state) (X : list N) : Prop := {
   rp_nodes : nodes s' = filter (fun n => negb (memN (n_base n) X)) (nodes s);
   rp_edges : edges s' = filter (fun e => negb (touches X e)) (edges s);
@@ -675,11 +688,11 @@ Qed.
 
 Definition dep_body (fuel' : nat) (k : key) (st : state) (d : key) : state :=
   let st1 := remove_edge st d k None in
-  if orphaned st1 (k_base d) then remove_node fuel' st1 d else st1.
+  if orphaned st1 (k_base d) then remove_node sc fuel' st1 d else st1.
 
 Lemma dep_loop fuel' s k :
   (forall s0 k0, Inv s0 -> (List.length (rdeps s0) < fuel')%nat ->
-                 exists X, RNPost s0 (k_base k0) (remove_node fuel' s0 k0) X) ->
+                 exists X, RNPost s0 (k_base k0) (remove_node sc fuel' s0 k0) X) ->
   Inv s -> has_node s (k_base k) = true -> (List.length (rdeps s) <= fuel')%nat ->
   forall ds st X dn,
     LI s (k_base k) st X dn ->
@@ -693,7 +706,7 @@ Proof.
   - exists X. rewrite app_nil_r. exact L.
   - set (st1 := remove_edge st d k None).
     assert (EQ : dep_body fuel' k st d =
-                 if orphaned st1 (k_base d) then remove_node fuel' st1 d else st1) by reflexivity.
+                 if orphaned st1 (k_base d) then remove_node sc fuel' st1 d else st1) by reflexivity.
     rewrite EQ. clear EQ.
     assert (N1 : nodes st1 = nodes st) by apply remove_edge_nodes.
     assert (I1 : Inv st1) by (apply remove_edge_Inv, L).
@@ -725,7 +738,7 @@ Proof.
     + (* orphaned: recursive eviction *)
       assert (Hlt : (List.length (rdeps st1) < fuel')%nat) by lia.
       destruct (IHf st1 d I1 Hlt) as [X2 P2].
-      set (st2 := remove_node fuel' st1 d) in *.
+      set (st2 := remove_node sc fuel' st1 d) in *.
       assert (F2 : forall x, has_node st2 x = has_node st1 x && negb (memN x X2))
         by (intros; apply has_node_filter; apply P2).
       assert (L2 : LI s b st2 (X ++ X2) (dn ++ [k_base d])).
@@ -795,11 +808,11 @@ Proof.
 Qed.
 
 Lemma remove_node_S fuel' s k :
-  remove_node (S fuel') s k =
+  remove_node sc (S fuel') s k =
   if negb (has_node s (k_base k)) then s else
-  let s1 := fold_left (dep_body fuel' k) (dependents s (k_base k)) s in
+  let s1 := fold_left (dep_body fuel' k) (sc_deps sc s (dependents s (k_base k))) s in
   let s2 := fold_left (fun st e => remove_edge st k (ed_to e) (Some (ed_kind e)))
-                      (filter (fun e => fb e =? k_base k) (edges s1)) s1 in
+                      (sc_out sc s1 (filter (fun e => fb e =? k_base k) (edges s1))) s1 in
   drop_node s2 (k_base k).
 Proof. reflexivity. Qed.
 
@@ -829,35 +842,35 @@ Qed.
 (* RemoveNode: functional post-condition; in particular 1 + |revDeps| fuel is enough *)
 Lemma remove_node_post : forall fuel s k,
   Inv s -> (List.length (rdeps s) < fuel)%nat ->
-  exists X, RNPost s (k_base k) (remove_node fuel s k) X.
+  exists X, RNPost s (k_base k) (remove_node sc fuel s k) X.
 Proof.
   induction fuel as [|fuel' IHf]; intros s k I Hlt; [lia|].
   rewrite remove_node_S. destruct (has_node s (k_base k)) eqn:Hb; simpl negb; cbv iota.
   2:{ exists []. apply RNPost_noop; auto. }
   set (b := k_base k) in *.
   assert (Hfuel : (List.length (rdeps s) <= fuel')%nat) by lia.
-  destruct (dep_loop fuel' s k IHf I Hb Hfuel (dependents s b) s [] [] (LI_init s b I)) as [X L].
-  { intros d Hd. apply dependents_In; auto. }
-  { intros d Hd. left. apply dependents_In; auto. }
+  destruct (dep_loop fuel' s k IHf I Hb Hfuel (sc_deps sc s (dependents s b)) s [] [] (LI_init s b I)) as [X L].
+  { intros d Hd. apply (proj1 sc_ok) in Hd. apply dependents_In; auto. }
+  { intros d Hd. left. apply (proj1 sc_ok) in Hd. apply dependents_In; auto. }
   simpl app in L. cbv zeta.
-  set (s1 := fold_left (dep_body fuel' k) (dependents s b) s) in *.
-  set (dn := map k_base (dependents s b)) in *.
+  set (s1 := fold_left (dep_body fuel' k) (sc_deps sc s (dependents s b)) s) in *.
+  set (dn := map k_base (sc_deps sc s (dependents s b))) in *.
   assert (INTO : forall e, In e (edges s) -> tb e = b -> memN (fb e) dn = true).
   { intros e Hin Ht. assert (Lk : Linked s (fb e) b) by (exists e; auto).
     apply (inv_rdeps s I) in Lk. destruct Lk as [key [Hk Hkb]].
-    apply memN_In. unfold dn. rewrite <- Hkb. apply in_map. apply dependents_In; auto. }
+    apply memN_In. unfold dn. rewrite <- Hkb. apply in_map. apply (proj1 sc_ok). apply dependents_In; auto. }
   assert (NOIN : forall e, In e (edges s1) -> tb e <> b).
   { intros e Hin Ht. rewrite (li_edges _ _ _ _ _ L) in Hin. apply filter_In in Hin.
     destruct Hin as [Hin Kp]. unfold keepE in Kp. rewrite (INTO e Hin Ht), Ht, N.eqb_refl in Kp.
     rewrite andb_false_r in Kp. discriminate. }
-  destruct (out_loop k b (filter (fun e => fb e =? b) (edges s1)) s1 (li_inv _ _ _ _ _ L) eq_refl)
+  destruct (out_loop k b (sc_out sc s1 (filter (fun e => fb e =? b) (edges s1))) s1 (li_inv _ _ _ _ _ L) eq_refl)
     as [I2 [N2 [O2 [R2 E2]]]].
   set (s2 := fold_left (fun st e => remove_edge st k (ed_to e) (Some (ed_kind e)))
-                       (filter (fun e => fb e =? b) (edges s1)) s1) in *.
+                       (sc_out sc s1 (filter (fun e => fb e =? b) (edges s1))) s1) in *.
   assert (E2' : edges s2 = filter (fun e => negb (fb e =? b)) (edges s1)).
   { rewrite E2. apply filter_ext_in'. intros e Hin. f_equal.
     destruct (fb e =? b) eqn:Ef.
-    - apply existsb_exists. exists e. split; [apply filter_In; auto|].
+    - apply existsb_exists. exists e. split; [apply (proj2 sc_ok); apply filter_In; auto|].
       apply same_edge_true. apply N.eqb_eq in Ef. auto.
     - apply existsb_false. intros x _. unfold same_edge. rewrite Ef. reflexivity. }
   exists (X ++ [b]). split.
@@ -1050,7 +1063,7 @@ Qed.
 
 Lemma abs_remove_node fuel s k :
   Inv s -> (List.length (rdeps s) < fuel)%nat ->
-  abs (remove_node fuel s k) = sp_remove_node (abs s) (k_base k).
+  abs (remove_node sc fuel s k) = sp_remove_node (abs s) (k_base k).
 Proof.
   intros I Hlt. destruct (remove_node_post fuel s k I Hlt) as [X P].
   unfold sp_remove_node. rewrite sp_has_abs. destruct (has_node s (k_base k)) eqn:Hb.
@@ -1075,5 +1088,1042 @@ Proof.
 Qed.
 
 Lemma remove_node_Inv fuel s k :
-  Inv s -> (List.length (rdeps s) < fuel)%nat -> Inv (remove_node fuel s k).
+  Inv s -> (List.length (rdeps s) < fuel)%nat -> Inv (remove_node sc fuel s k).
 Proof. intros I H. destruct (remove_node_post fuel s k I H) as [X P]. apply P. Qed.
+
+(* ------------------------------------------------------------------ F. every op: invariant and refinement *)
+
+Arguments remove_node : simpl never.
+Arguments rn_fuel : simpl never.
+
+Lemma rn_fuel_ok s : (List.length (rdeps s) < rn_fuel s)%nat.
+Proof. unfold rn_fuel. lia. Qed.
+
+Lemma add_node_Inv s k kind : Inv s -> Inv (fst (add_node sc s k kind)).
+Proof.
+  intros I. unfold add_node. destruct (get_node s (k_base k)) as [ex|]; simpl.
+  - destruct (opt_ver_eqb _ _); simpl; auto.
+    apply set_node_Inv, remove_node_Inv; auto using rn_fuel_ok.
+  - apply set_node_Inv; auto.
+Qed.
+
+Lemma add_node_id_base s k kind : k_base (snd (add_node sc s k kind)) = k_base k.
+Proof.
+  unfold add_node. destruct (get_node s (k_base k)) as [ex|] eqn:G; simpl; auto.
+  destruct (opt_ver_eqb _ _); simpl; auto. apply (get_node_base s); auto.
+Qed.
+
+Lemma abs_add_node s k kind :
+  Inv s -> abs (fst (add_node sc s k kind)) = sp_add_node (abs s) (k_base k) kind (k_ver k).
+Proof.
+  intros I. unfold add_node, sp_add_node. rewrite sp_get_abs.
+  destruct (get_node s (k_base k)) as [ex|] eqn:G; simpl.
+  - destruct (opt_ver_eqb (n_ver ex) (k_ver k)); simpl; auto.
+    rewrite abs_set_node, abs_remove_node; auto using rn_fuel_ok.
+    pose proof (get_node_base s _ _ G) as B. unfold n_base in B. rewrite B. reflexivity.
+  - rewrite abs_set_node. reflexivity.
+Qed.
+
+Lemma fold_add_edge_Inv id kind l : forall s,
+  Inv s -> Inv (fold_left (fun st f => add_edge st id f kind) l s).
+Proof. induction l as [|f l IH]; intros s I; simpl; auto using add_edge_Inv. Qed.
+
+Lemma fold_add_edge_abs id kind l : forall s,
+  abs (fold_left (fun st f => add_edge st id f kind) l s) =
+  fold_left (fun st f => sp_add_edge st (k_base id) kind (k_base f)) l (abs s).
+Proof.
+  induction l as [|f l IH]; intros s; simpl; auto. rewrite IH, abs_add_edge. reflexivity.
+Qed.
+
+Lemma enum_value_Inv id prim st v : Inv st -> Inv (enum_value sc id prim st v).
+Proof.
+  intros I. unfold enum_value. pose proof (add_node_Inv st v KConst I) as I1.
+  destruct (add_node sc st v KConst) as [st1 vid]. simpl in I1. auto using add_edge_Inv.
+Qed.
+
+Lemma enum_value_abs id prim st v :
+  Inv st -> abs (enum_value sc id prim st v) = sp_enum_value (k_base id) (k_base prim) (abs st) v.
+Proof.
+  intros I. unfold enum_value, sp_enum_value.
+  pose proof (abs_add_node st v KConst I) as A. pose proof (add_node_id_base st v KConst) as B.
+  destruct (add_node sc st v KConst) as [st1 vid]. simpl in A, B.
+  rewrite !abs_add_edge, A, B. reflexivity.
+Qed.
+
+Lemma fold_enum_value id prim l : forall st,
+  Inv st ->
+  Inv (fold_left (enum_value sc id prim) l st) /\
+  abs (fold_left (enum_value sc id prim) l st) =
+  fold_left (sp_enum_value (k_base id) (k_base prim)) l (abs st).
+Proof.
+  induction l as [|v l IH]; intros st I; simpl; auto.
+  destruct (IH _ (enum_value_Inv id prim st v I)) as [A B]. split; auto.
+  rewrite B, enum_value_abs; auto.
+Qed.
+
+Theorem step_Inv s o : Inv s -> Inv (step sc s o).
+Proof.
+  intros I. destruct o as [k kind|kind k|k fields|k ty bk|k prim vals|f t kind|f t ko|k]; simpl.
+  - apply add_builtin_Inv; auto.
+  - apply add_node_Inv; auto.
+  - pose proof (add_node_Inv s k KStruct I) as I1. destruct (add_node sc s k KStruct) as [s1 id].
+    apply fold_add_edge_Inv; auto.
+  - pose proof (add_node_Inv s k KField I) as I1. destruct (add_node sc s k KField) as [s1 id].
+    simpl in I1. destruct bk.
+    + apply add_edge_Inv, add_builtin_Inv; auto.
+    + destruct (has_node s1 (k_base ty)); auto using add_edge_Inv.
+  - pose proof (add_node_Inv s k KEnum I) as I1. destruct (add_node sc s k KEnum) as [s1 id].
+    simpl in I1. apply fold_enum_value. apply add_builtin_Inv; auto.
+  - apply add_edge_Inv; auto.
+  - apply remove_edge_Inv; auto.
+  - apply remove_node_Inv; auto using rn_fuel_ok.
+Qed.
+
+Theorem abs_step s o : Inv s -> abs (step sc s o) = spec_step (abs s) o.
+Proof.
+  intros I. destruct o as [k kind|kind k|k fields|k ty bk|k prim vals|f t kind|f t ko|k]; simpl.
+  - apply abs_add_builtin.
+  - apply abs_add_node; auto.
+  - pose proof (abs_add_node s k KStruct I) as A. pose proof (add_node_id_base s k KStruct) as B.
+    destruct (add_node sc s k KStruct) as [s1 id]. simpl in A, B.
+    rewrite fold_add_edge_abs, A, B. reflexivity.
+  - pose proof (abs_add_node s k KField I) as A. pose proof (add_node_id_base s k KField) as B.
+    destruct (add_node sc s k KField) as [s1 id]. simpl in A, B. rewrite <- A. destruct bk.
+    + rewrite abs_add_edge, abs_add_builtin, B. reflexivity.
+    + rewrite sp_has_abs. destruct (has_node s1 (k_base ty)); auto.
+      rewrite abs_add_edge, B. reflexivity.
+  - pose proof (abs_add_node s k KEnum I) as A. pose proof (add_node_id_base s k KEnum) as B.
+    pose proof (add_node_Inv s k KEnum I) as I1.
+    destruct (add_node sc s k KEnum) as [s1 id]. simpl in A, B, I1.
+    destruct (fold_enum_value id prim vals (add_builtin s1 prim KBuiltin)) as [_ E].
+    { apply add_builtin_Inv; auto. }
+    rewrite E, abs_add_builtin, A, B. reflexivity.
+  - apply abs_add_edge.
+  - apply abs_remove_edge.
+  - apply abs_remove_node; auto using rn_fuel_ok.
+Qed.
+
+Definition spec_run (h : list op) : spec := fold_left spec_step h sp_empty.
+
+Lemma fold_step_Inv_abs h : forall s,
+  Inv s -> Inv (fold_left (step sc) h s) /\ abs (fold_left (step sc) h s) = fold_left spec_step h (abs s).
+Proof.
+  induction h as [|o h IH]; intros s I; simpl; auto.
+  destruct (IH _ (step_Inv s o I)) as [A B]. split; auto. rewrite B, abs_step; auto.
+Qed.
+
+Theorem run_Inv h : Inv (run sc h).
+Proof. apply fold_step_Inv_abs, Inv_empty. Qed.
+
+Theorem abs_run h : abs (run sc h) = spec_run h.
+Proof. apply (fold_step_Inv_abs h empty Inv_empty). Qed.
+
+(* ------------------------------------------------------------------ G. queries *)
+
+Lemma node_base_list_eq s b : node_base_list s b = if has_node s b then [b] else [].
+Proof.
+  unfold node_base_list. rewrite has_get_node. destruct (get_node s b) eqn:G; auto.
+  rewrite (get_node_base s b n G). reflexivity.
+Qed.
+
+Theorem q_children_abs s b : q_children s b = spq_children (abs s) b.
+Proof.
+  unfold q_children, spq_children. rewrite abs_edges, flat_map_map.
+  apply flat_map_ext_in. intros e _. simpl. rewrite node_base_list_eq, sp_has_abs. reflexivity.
+Qed.
+
+Theorem q_find_by_kind_abs s kd : q_find_by_kind s kd = spq_find_by_kind (abs s) kd.
+Proof.
+  unfold q_find_by_kind, spq_find_by_kind. rewrite abs_nodes, filter_map_comm, map_map. reflexivity.
+Qed.
+
+Lemma close_ext n g1 g2 : (forall R, g1 R = g2 R) -> forall R, close n g1 R = close n g2 R.
+Proof. intros H. induction n as [|n IH]; intros R; simpl; auto. rewrite H. apply IH. Qed.
+
+Lemma desc_of_ext f g n b : (forall x, f x = g x) -> desc_of f n b = desc_of g n b.
+Proof.
+  intros H. unfold desc_of. apply close_ext. intros R. unfold grow_desc.
+  rewrite H. rewrite (flat_map_ext_in f g R); auto.
+Qed.
+
+Theorem q_descendants_abs s b : q_descendants s b = spq_descendants (abs s) b.
+Proof.
+  unfold q_descendants, spq_descendants. rewrite abs_nodes, map_length.
+  apply desc_of_ext. intros x. apply q_children_abs.
+Qed.
+
+Theorem q_exists_abs s k : q_exists s k = sp_has (abs s) (k_base k).
+Proof. symmetry. apply sp_has_abs. Qed.
+
+Theorem q_get_abs s k : option_map pnode (q_get s k) = sp_get (abs s) (k_base k).
+Proof. symmetry. apply sp_get_abs. Qed.
+
+Lemma spq_parents_In s b x :
+  In x (spq_parents (abs s) b) <->
+  exists e, In e (edges s) /\ tb e = b /\ fb e = x /\ has_node s x = true.
+Proof.
+  unfold spq_parents. rewrite abs_edges, flat_map_map, in_flat_map. split.
+  - intros [e [Hin H]]. simpl in H. destruct (tb e =? b) eqn:T; [|destruct H].
+    rewrite sp_has_abs in H. destruct (has_node s (fb e)) eqn:Hn; [|destruct H].
+    destruct H as [<-|[]]. apply N.eqb_eq in T. exists e. auto.
+  - intros [e [Hin [Ht [Hf Hn]]]]. exists e. split; auto. simpl.
+    rewrite Ht, N.eqb_refl, sp_has_abs, Hf, Hn. left; auto.
+Qed.
+
+Theorem q_parents_abs s b x : Inv s -> (In x (q_parents s b) <-> In x (spq_parents (abs s) b)).
+Proof.
+  intros I. rewrite spq_parents_In. unfold q_parents. rewrite in_flat_map. split.
+  - intros [[t pk] [Hp H]]. simpl in H. destruct (t =? b) eqn:T; [|destruct H].
+    apply in_flat_map in H. destruct H as [e [Hin H]].
+    destruct ((fb e =? k_base pk) && (tb e =? b)) eqn:C; [|destruct H].
+    apply andb_true_iff in C. destruct C as [C1 C2]. apply N.eqb_eq in C1, C2.
+    rewrite node_base_list_eq in H. destruct (has_node s (k_base pk)) eqn:Hn; [|destruct H].
+    destruct H as [<-|[]]. exists e. auto.
+  - intros [e [Hin [Ht [Hf Hn]]]].
+    assert (L : Linked s x b) by (exists e; auto).
+    apply (inv_rdeps s I) in L. destruct L as [pk [Hp Hb]].
+    exists (b, pk). split; auto. simpl. rewrite N.eqb_refl. apply in_flat_map.
+    exists e. split; auto. rewrite Hb, Hf, Ht, !N.eqb_refl. simpl.
+    rewrite node_base_list_eq, Hn. left; auto.
+Qed.
+
+Theorem q_edges_In s b e :
+  Inv s -> (In e (q_edges s b) <-> In e (edges s) /\ (fb e = b \/ tb e = b)).
+Proof.
+  intros I. unfold q_edges. rewrite in_app_iff, filter_In, in_flat_map. split.
+  - intros [[Hin Hf]|[[t pk] [Hp H]]].
+    + apply N.eqb_eq in Hf. auto.
+    + simpl in H. destruct (t =? b); [|destruct H]. apply filter_In in H.
+      destruct H as [Hin H]. apply andb_true_iff in H. destruct H as [_ H].
+      apply N.eqb_eq in H. auto.
+  - intros [Hin [Hf|Ht]].
+    + left. split; auto. apply N.eqb_eq; auto.
+    + right. assert (L : Linked s (fb e) b) by (exists e; auto).
+      apply (inv_rdeps s I) in L. destruct L as [pk [Hp Hb]].
+      exists (b, pk). split; auto. simpl. rewrite N.eqb_refl. apply filter_In. split; auto.
+      rewrite Hb, Ht, !N.eqb_refl. reflexivity.
+Qed.
+
+(* an edge is listed among its source's edges iff it is listed among its target's *)
+Theorem out_in_agree s e :
+  Inv s -> (In e (q_edges s (fb e)) <-> In e (q_edges s (tb e))).
+Proof. intros I. rewrite !q_edges_In; auto. tauto. Qed.
+
+Lemma spq_edges_In s b se :
+  In se (spq_edges (abs s) b) <->
+  exists e, In e (edges s) /\ proj_edge e = se /\ (fb e = b \/ tb e = b).
+Proof.
+  unfold spq_edges. rewrite abs_edges, filter_In, in_map_iff. split.
+  - intros [[e [E Hin]] H]. subst se. simpl in H. apply orb_true_iff in H.
+    rewrite !N.eqb_eq in H. exists e. auto.
+  - intros [e [Hin [E H]]]. subst se. split; [exists e; auto|]. simpl.
+    apply orb_true_iff. rewrite !N.eqb_eq. auto.
+Qed.
+
+Theorem q_edges_abs s b se :
+  Inv s -> (In se (map proj_edge (q_edges s b)) <-> In se (spq_edges (abs s) b)).
+Proof.
+  intros I. rewrite spq_edges_In, in_map_iff. split.
+  - intros [e [E Hin]]. apply q_edges_In in Hin; auto. exists e. tauto.
+  - intros [e [Hin [E H]]]. exists e. split; auto. apply q_edges_In; auto.
+Qed.
+
+(* ------------------------------------------------------------------ descendants = reachability *)
+
+Inductive Reach (sp : spec) (b : N) : N -> Prop :=
+| reach_child x : In x (spq_children sp b) -> Reach sp b x
+| reach_step y x : Reach sp b y -> In x (spq_children sp y) -> Reach sp b x.
+
+Lemma dedup_In l x : In x (dedup N.eqb l) <-> In x l.
+Proof.
+  induction l as [|y l IH]; simpl; [tauto|].
+  destruct (mem N.eqb y l) eqn:M.
+  - rewrite IH. split; auto. intros [<-|H]; auto.
+    apply (mem_spec N.eqb N.eqb_eq) in M. auto.
+  - simpl. rewrite IH. tauto.
+Qed.
+
+Lemma dedup_NoDup l : NoDup (dedup N.eqb l).
+Proof.
+  induction l as [|y l IH]; simpl; [constructor|].
+  destruct (mem N.eqb y l) eqn:M; auto. constructor; auto.
+  rewrite dedup_In. intros H. apply (mem_spec N.eqb N.eqb_eq) in H. congruence.
+Qed.
+
+Lemma grow_desc_In ch b R x :
+  In x (grow_desc ch b R) <-> In x (ch b ++ flat_map ch R) /\ ~ In x R.
+Proof.
+  unfold grow_desc. rewrite dedup_In, filter_In, negb_true_iff, memN_false. tauto.
+Qed.
+
+Lemma spq_children_node sp y x : In x (spq_children sp y) -> In x (map sn_base (sp_nodes sp)).
+Proof.
+  unfold spq_children. rewrite in_flat_map. intros [e [_ H]].
+  destruct (se_from e =? y); [|destruct H].
+  destruct (sp_has sp (se_to e)) eqn:Hn; [|destruct H]. destruct H as [<-|[]].
+  apply sp_has_true; auto.
+Qed.
+
+Theorem spq_descendants_spec sp b x :
+  In x (spq_descendants sp b) <-> Reach sp b x.
+Proof.
+  unfold spq_descendants, desc_of. set (ch := spq_children sp). split.
+  - assert (G : forall n R, (forall y, In y R -> Reach sp b y) ->
+                forall y, In y (close n (grow_desc ch b) R) -> Reach sp b y).
+    { induction n as [|n IH]; intros R HR y Hy; simpl in Hy; auto.
+      apply (IH (R ++ grow_desc ch b R)); auto.
+      intros z Hz. apply in_app_iff in Hz. destruct Hz as [Hz|Hz]; auto.
+      apply grow_desc_In in Hz. destruct Hz as [Hz _]. apply in_app_iff in Hz.
+      destruct Hz as [Hz|Hz]; [apply reach_child; auto|].
+      apply in_flat_map in Hz. destruct Hz as [w [Hw Hz]]. apply (reach_step sp b w); auto. }
+    apply G. intros y [].
+  - set (F := close (List.length (sp_nodes sp)) (grow_desc ch b) []).
+    assert (Hfix : grow_desc ch b F = []).
+    { apply (close_reaches_fixpoint (map sn_base (sp_nodes sp))).
+      - intros R y Hy. apply grow_desc_In in Hy. destruct Hy as [Hy Hn]. split; auto.
+        apply in_app_iff in Hy. destruct Hy as [Hy|Hy]; [eapply spq_children_node; eauto|].
+        apply in_flat_map in Hy. destruct Hy as [w [_ Hy]]. eapply spq_children_node; eauto.
+      - intros R. apply dedup_NoDup.
+      - constructor.
+      - intros y [].
+      - rewrite map_length. simpl. lia. }
+    assert (CL : forall y, In y (ch b ++ flat_map ch F) -> In y F).
+    { intros y Hy. destruct (memN y F) eqn:M; [apply memN_In; auto|]. exfalso.
+      assert (In y (grow_desc ch b F)) by (apply grow_desc_In; split; auto; apply memN_false; auto).
+      rewrite Hfix in H. destruct H. }
+    induction 1 as [y Hy|y z Hy IH Hz].
+    + apply CL. apply in_app_iff. auto.
+    + apply CL. apply in_app_iff. right. apply in_flat_map. exists y. auto.
+Qed.
+
+(* ------------------------------------------------------------------ I. idempotence of re-insertion *)
+
+Lemma key_eqb_refl k : key_eqb k k = true.
+Proof. apply key_eqb_eq. reflexivity. Qed.
+
+Lemma adj_add_idem l b k : adj_add (adj_add l b k) b k = adj_add l b k.
+Proof.
+  unfold adj_add at 2. destruct (existsb _ l) eqn:E.
+  - unfold adj_add. rewrite E. reflexivity.
+  - unfold adj_add. rewrite E, existsb_app. simpl. rewrite N.eqb_refl, key_eqb_refl. simpl.
+    rewrite orb_true_r. reflexivity.
+Qed.
+
+Lemma add_edge_idem s f t k : add_edge (add_edge s f t k) f t k = add_edge s f t k.
+Proof.
+  assert (X : existsb (same_edge (k_base f) k (k_base t)) (edges (add_edge s f t k)) = true).
+  { unfold add_edge. destruct (existsb _ (edges s)) eqn:E; simpl; auto.
+    rewrite existsb_app. simpl. unfold same_edge at 2, fb, tb. simpl.
+    rewrite !N.eqb_refl. simpl. apply orb_true_r. }
+  unfold add_edge at 1. rewrite X, add_edge_deps, add_edge_rdeps, !adj_add_idem.
+  unfold add_edge. destruct (existsb _ (edges s)); reflexivity.
+Qed.
+
+Lemma get_node_set_node s n : get_node (set_node s n) (n_base n) = Some n.
+Proof.
+  unfold get_node, set_node. simpl. induction (nodes s) as [|x l IH]; simpl.
+  - rewrite N.eqb_refl. reflexivity.
+  - destruct (n_base x =? n_base n) eqn:E; simpl; auto. rewrite E. auto.
+Qed.
+
+Lemma has_node_set_self s n : has_node (set_node s n) (n_base n) = true.
+Proof. rewrite has_get_node, get_node_set_node. reflexivity. Qed.
+
+Lemma add_builtin_idem s k kd : add_builtin (add_builtin s k kd) k kd = add_builtin s k kd.
+Proof.
+  unfold add_builtin at 2. destruct (has_node s (k_base k)) eqn:H.
+  - unfold add_builtin. rewrite H. reflexivity.
+  - pose proof (has_node_set_self s (Nd k kd None)) as X. unfold n_base in X. simpl in X.
+    unfold add_builtin. rewrite X, H. reflexivity.
+Qed.
+
+Lemma add_node_idem s k kd :
+  fst (add_node sc (fst (add_node sc s k kd)) k kd) = fst (add_node sc s k kd).
+Proof.
+  assert (NEW : forall s', fst (add_node sc (set_node s' (Nd k kd (Some (k_ver k)))) k kd)
+                           = set_node s' (Nd k kd (Some (k_ver k)))).
+  { intros s'. unfold add_node at 1.
+    change (k_base k) with (n_base (Nd k kd (Some (k_ver k)))). rewrite get_node_set_node.
+    simpl. rewrite N.eqb_refl. reflexivity. }
+  destruct (get_node s (k_base k)) as [ex|] eqn:G.
+  - destruct (opt_ver_eqb (n_ver ex) (k_ver k)) eqn:V.
+    + assert (E : add_node sc s k kd = (s, n_id ex)) by (unfold add_node; rewrite G, V; reflexivity).
+      rewrite E. simpl. rewrite E. reflexivity.
+    + assert (E : fst (add_node sc s k kd) =
+                  set_node (remove_node sc (rn_fuel s) s (n_id ex)) (Nd k kd (Some (k_ver k))))
+        by (unfold add_node; rewrite G, V; reflexivity).
+      rewrite E. apply NEW.
+  - assert (E : fst (add_node sc s k kd) = set_node s (Nd k kd (Some (k_ver k))))
+      by (unfold add_node; rewrite G; reflexivity).
+    rewrite E. apply NEW.
+Qed.
+
+Definition is_simple_add (o : op) : bool :=
+  match o with AddBuiltin _ _ | AddNode _ _ | AddEdge _ _ _ => true | _ => false end.
+
+Theorem step_idempotent s o : is_simple_add o = true -> step sc (step sc s o) o = step sc s o.
+Proof.
+  destruct o; simpl; intros H; try discriminate.
+  - apply add_builtin_idem.
+  - apply add_node_idem.
+  - apply add_edge_idem.
+Qed.
+
+(* at the level of the abstract graph, re-adding anything that is present changes nothing *)
+Lemma sp_add_edge_present sp f k t :
+  existsb (sedge_eqb (Se f k t)) (sp_edges sp) = true -> sp_add_edge sp f k t = sp.
+Proof. intros H. unfold sp_add_edge. rewrite H. reflexivity. Qed.
+
+Lemma sp_add_builtin_present sp b kd : sp_has sp b = true -> sp_add_builtin sp b kd = sp.
+Proof. intros H. unfold sp_add_builtin. rewrite H. reflexivity. Qed.
+
+Lemma sp_add_node_present sp b kd v ex :
+  sp_get sp b = Some ex -> sn_ver ex = Some v -> sp_add_node sp b kd v = sp.
+Proof. intros G V. unfold sp_add_node. rewrite G, V. simpl. rewrite N.eqb_refl. reflexivity. Qed.
+
+(* ------------------------------------------------------------------ newer version replaces the stale one *)
+
+(* after (re-)adding a node the graph holds it under exactly the version given *)
+Theorem add_node_version s k kd :
+  exists n, get_node (fst (add_node sc s k kd)) (k_base k) = Some n /\ n_ver n = Some (k_ver k).
+Proof.
+  unfold add_node. destruct (get_node s (k_base k)) as [ex|] eqn:G.
+  - destruct (opt_ver_eqb (n_ver ex) (k_ver k)) eqn:V; simpl.
+    + exists ex. split; auto. unfold opt_ver_eqb in V. destruct (n_ver ex); [|discriminate].
+      apply N.eqb_eq in V. subst. reflexivity.
+    + exists (Nd k kd (Some (k_ver k))). split; auto.
+      change (k_base k) with (n_base (Nd k kd (Some (k_ver k)))). apply get_node_set_node.
+  - simpl. exists (Nd k kd (Some (k_ver k))). split; auto.
+    change (k_base k) with (n_base (Nd k kd (Some (k_ver k)))). apply get_node_set_node.
+Qed.
+
+(* and when the version differs, the stale node is evicted exactly like RemoveNode does *)
+Theorem add_node_replaces s k kd ex :
+  Inv s -> get_node s (k_base k) = Some ex -> opt_ver_eqb (n_ver ex) (k_ver k) = false ->
+  abs (fst (add_node sc s k kd)) =
+  sp_set_node (sp_remove_node (abs s) (k_base k)) (Sn (k_base k) kd (Some (k_ver k))).
+Proof.
+  intros I G V. rewrite abs_add_node; auto. unfold sp_add_node.
+  rewrite sp_get_abs, G. simpl. rewrite V. reflexivity.
+Qed.
+
+(* ------------------------------------------------------------------ H. the oracle holds of the model *)
+
+Lemma edesc_eqb_eq a b : edesc_eqb a b = true <-> a = b.
+Proof.
+  unfold edesc_eqb, key_of_edge_eqb. rewrite !andb_true_iff, !key_eqb_eq, !N.eqb_eq.
+  destruct a, b; simpl. split.
+  - intros [[[-> ->] ->] ->]. reflexivity.
+  - intros H; inversion H; auto.
+Qed.
+
+Lemma sedge_eqb_eq a b : sedge_eqb a b = true <-> a = b.
+Proof.
+  unfold sedge_eqb. rewrite !andb_true_iff, !N.eqb_eq. destruct a, b; simpl. split.
+  - intros [[-> ->] ->]. reflexivity.
+  - intros H; inversion H; auto.
+Qed.
+
+Lemma n3_eqb_eq a b : n3_eqb a b = true <-> a = b.
+Proof.
+  destruct a as [[a1 a2] a3], b as [[b1 b2] b3]. unfold n3_eqb.
+  rewrite !andb_true_iff, !N.eqb_eq. split.
+  - intros [[-> ->] ->]. reflexivity.
+  - intros H; inversion H; auto.
+Qed.
+
+Section SetEq.
+  Context {A : Type} (eqb : A -> A -> bool).
+  Hypothesis eqb_eq : forall x y, eqb x y = true <-> x = y.
+
+  Lemma set_eqb_spec a b : set_eqb eqb a b = true <-> (forall x, In x a <-> In x b).
+  Proof.
+    unfold set_eqb. rewrite andb_true_iff, !forallb_forall. split.
+    - intros [H1 H2] x. split; intros H.
+      + apply (mem_spec eqb eqb_eq). auto.
+      + apply (mem_spec eqb eqb_eq). auto.
+    - intros H. split; intros x Hx; apply (mem_spec eqb eqb_eq); apply H; auto.
+  Qed.
+
+  Lemma set_eqb_refl a : set_eqb eqb a a = true.
+  Proof. apply set_eqb_spec. tauto. Qed.
+
+  Lemma gdedup_In l x : In x (dedup eqb l) <-> In x l.
+  Proof.
+    induction l as [|y l IH]; simpl; [tauto|].
+    destruct (mem eqb y l) eqn:M.
+    - rewrite IH. split; auto. intros [<-|H]; auto. apply (mem_spec eqb eqb_eq) in M. auto.
+    - simpl. rewrite IH. tauto.
+  Qed.
+End SetEq.
+
+Lemma forallb_In {A} (f : A -> bool) l : (forall x, In x l -> f x = true) -> forallb f l = true.
+Proof. intros H. apply forallb_forall. auto. Qed.
+
+(* rows *)
+
+Lemma memN_cons x u l : memN x (u :: l) = (x =? u) || memN x l.
+Proof. reflexivity. Qed.
+
+Lemma rowd_nonempty_rows {A} (f : N -> list A) U b :
+  rowd b (flat_map (fun u => nonempty_row u (f u)) U) = if memN b U then f b else [].
+Proof.
+  induction U as [|u U IH]; [reflexivity|]. rewrite memN_cons. cbn [flat_map].
+  destruct (f u) as [|a l] eqn:F; cbn [nonempty_row app rowd].
+  - rewrite IH. destruct (b =? u) eqn:E; simpl; auto. apply N.eqb_eq in E. subst.
+    rewrite F. destruct (memN u U); reflexivity.
+  - rewrite (N.eqb_sym u b). destruct (b =? u) eqn:E; simpl; auto.
+    apply N.eqb_eq in E. subst. auto.
+Qed.
+
+Lemma rowd_cond_rows {A} (c : N -> bool) (f : N -> list A) U b :
+  rowd b (flat_map (fun u => if c u then [(u, f u)] else []) U) = if memN b U && c b then f b else [].
+Proof.
+  induction U as [|u U IH]; [reflexivity|]. rewrite memN_cons. cbn [flat_map].
+  destruct (c u) eqn:C; cbn [app rowd].
+  - rewrite (N.eqb_sym u b). destruct (b =? u) eqn:E; simpl; auto.
+    apply N.eqb_eq in E. subst. rewrite C. reflexivity.
+  - rewrite IH. destruct (b =? u) eqn:E; simpl; auto. apply N.eqb_eq in E. subst.
+    rewrite C, andb_false_r. reflexivity.
+Qed.
+
+Lemma has_row_cond_rows {A} (c : N -> bool) (f : N -> list A) U b :
+  has_row b (flat_map (fun u => if c u then [(u, f u)] else []) U) = memN b U && c b.
+Proof.
+  unfold has_row. induction U as [|u U IH]; [reflexivity|]. rewrite memN_cons. cbn [flat_map].
+  destruct (c u) eqn:C; cbn [app existsb fst].
+  - rewrite IH, (N.eqb_sym u b). destruct (b =? u) eqn:E; simpl; auto.
+    apply N.eqb_eq in E. subst. auto.
+  - rewrite IH. destruct (b =? u) eqn:E; simpl; auto. apply N.eqb_eq in E. subst.
+    rewrite C, andb_false_r. reflexivity.
+Qed.
+
+Lemma no_row_rowd {A} b (rows : list (N * list A)) : has_row b rows = false -> rowd b rows = [].
+Proof.
+  unfold has_row. induction rows as [|[x l] r IH]; simpl; auto.
+  destruct (x =? b); simpl; auto. discriminate.
+Qed.
+
+(* ------------------------------------------------------------------ the universe *)
+
+Definition WU (U : list N) (s : state) : Prop :=
+  (forall n, In n (nodes s) -> In (n_base n) U) /\
+  (forall e, In e (edges s) -> In (fb e) U /\ In (tb e) U).
+
+Lemma WU_empty U : WU U empty.
+Proof. split; intros ? []. Qed.
+
+Lemma WU_sub U s s' :
+  WU U s -> (forall n, In n (nodes s') -> In n (nodes s)) ->
+  (forall e, In e (edges s') -> In e (edges s)) -> WU U s'.
+Proof. intros [A B] HN HE. split; auto. Qed.
+
+Lemma WU_add_edge U s f t k :
+  WU U s -> In (k_base f) U -> In (k_base t) U -> WU U (add_edge s f t k).
+Proof.
+  intros [A B] Hf Ht. split.
+  - rewrite add_edge_nodes. auto.
+  - unfold add_edge. destruct (existsb _ (edges s)); simpl; auto.
+    intros e He. apply in_app_iff in He. destruct He as [He|[<-|[]]]; auto.
+Qed.
+
+Lemma WU_remove_edge U s f t ko : WU U s -> WU U (remove_edge s f t ko).
+Proof.
+  intros W. apply (WU_sub U s); auto.
+  - rewrite remove_edge_nodes. auto.
+  - rewrite remove_edge_edges. intros e He. apply filter_In in He. tauto.
+Qed.
+
+Lemma WU_set_node U s n : WU U s -> In (n_base n) U -> WU U (set_node s n).
+Proof.
+  intros [A B] Hn. split; simpl; auto.
+  intros m Hm. apply in_app_iff in Hm. destruct Hm as [Hm|[<-|[]]]; auto.
+  apply filter_In in Hm. apply A. tauto.
+Qed.
+
+Lemma WU_remove_node U s k : Inv s -> WU U s -> WU U (remove_node sc (rn_fuel s) s k).
+Proof.
+  intros I W. destruct (remove_node_post (rn_fuel s) s k I (rn_fuel_ok s)) as [X P].
+  apply (WU_sub U s); auto.
+  - rewrite (rp_nodes _ _ _ _ P). intros n Hn. apply filter_In in Hn. tauto.
+  - rewrite (rp_edges _ _ _ _ P). intros e He. apply filter_In in He. tauto.
+Qed.
+
+Lemma WU_add_node U s k kd :
+  Inv s -> WU U s -> In (k_base k) U -> WU U (fst (add_node sc s k kd)).
+Proof.
+  intros I W Hk. unfold add_node. destruct (get_node s (k_base k)) as [ex|]; simpl.
+  - destruct (opt_ver_eqb _ _); simpl; auto.
+    apply WU_set_node; auto. apply WU_remove_node; auto.
+  - apply WU_set_node; auto.
+Qed.
+
+Lemma WU_add_builtin U s k kd : WU U s -> In (k_base k) U -> WU U (add_builtin s k kd).
+Proof.
+  intros W Hk. unfold add_builtin. destruct (has_node s (k_base k)); auto.
+  apply WU_set_node; auto.
+Qed.
+
+Lemma WU_fold_add_edge U id kind l : forall s,
+  WU U s -> In (k_base id) U -> (forall f, In f l -> In (k_base f) U) ->
+  WU U (fold_left (fun st f => add_edge st id f kind) l s).
+Proof.
+  induction l as [|f l IH]; intros s W Hid Hl; simpl; auto.
+  apply IH; auto.
+  - apply WU_add_edge; auto. apply Hl. left; auto.
+  - intros g Hg. apply Hl. right; auto.
+Qed.
+
+Lemma WU_fold_enum U id prim l : forall s,
+  Inv s -> WU U s -> In (k_base id) U -> In (k_base prim) U ->
+  (forall f, In f l -> In (k_base f) U) ->
+  WU U (fold_left (enum_value sc id prim) l s).
+Proof.
+  induction l as [|v l IH]; intros s I W Hid Hp Hl; simpl; auto.
+  apply IH; auto.
+  - apply enum_value_Inv; auto.
+  - unfold enum_value.
+    pose proof (WU_add_node U s v KConst I W (Hl v (or_introl eq_refl))) as W1.
+    pose proof (add_node_id_base s v KConst) as B.
+    destruct (add_node sc s v KConst) as [st1 vid]. simpl in W1, B.
+    apply WU_add_edge; [apply WU_add_edge|..]; auto; rewrite B; apply Hl; left; auto.
+  - intros g Hg. apply Hl. right; auto.
+Qed.
+
+Lemma forallb_memN U (l : list key) :
+  forallb (fun f => memN (k_base f) U) l = true -> forall f, In f l -> In (k_base f) U.
+Proof. intros H f Hf. rewrite forallb_forall in H. apply memN_In. auto. Qed.
+
+Lemma WU_step U s o : Inv s -> WU U s -> in_universe U o = true -> WU U (step sc s o).
+Proof.
+  intros I W Hu.
+  destruct o as [k kind|kind k|k fields|k ty bk|k prim vals|f t kind|f t ko|k]; simpl in *.
+  - apply WU_add_builtin; auto. apply memN_In; auto.
+  - apply WU_add_node; auto. apply memN_In; auto.
+  - apply andb_true_iff in Hu. destruct Hu as [Hk Hf]. apply memN_In in Hk.
+    pose proof (WU_add_node U s k KStruct I W Hk) as W1.
+    pose proof (add_node_id_base s k KStruct) as B.
+    destruct (add_node sc s k KStruct) as [s1 id]. simpl in W1, B.
+    apply WU_fold_add_edge; auto. { rewrite B; auto. } apply forallb_memN; auto.
+  - apply andb_true_iff in Hu. destruct Hu as [Hk Ht]. apply memN_In in Hk, Ht.
+    pose proof (WU_add_node U s k KField I W Hk) as W1.
+    pose proof (add_node_id_base s k KField) as B.
+    destruct (add_node sc s k KField) as [s1 id]. simpl in W1, B. destruct bk.
+    + apply WU_add_edge; auto. { apply WU_add_builtin; auto. } rewrite B; auto.
+    + destruct (has_node s1 (k_base ty)); auto. apply WU_add_edge; auto. rewrite B; auto.
+  - apply andb_true_iff in Hu. destruct Hu as [Hu Hv]. apply andb_true_iff in Hu.
+    destruct Hu as [Hk Hp]. apply memN_In in Hk, Hp.
+    pose proof (WU_add_node U s k KEnum I W Hk) as W1.
+    pose proof (add_node_Inv s k KEnum I) as I1.
+    pose proof (add_node_id_base s k KEnum) as B.
+    destruct (add_node sc s k KEnum) as [s1 id]. simpl in W1, B, I1.
+    apply WU_fold_enum; auto.
+    + apply add_builtin_Inv; auto.
+    + apply WU_add_builtin; auto.
+    + rewrite B; auto.
+    + apply forallb_memN; auto.
+  - apply andb_true_iff in Hu. destruct Hu as [Hf Ht]. apply memN_In in Hf, Ht.
+    apply WU_add_edge; auto.
+  - apply WU_remove_edge; auto.
+  - apply WU_remove_node; auto.
+Qed.
+
+Lemma flat_map_nil {A B} (f : A -> list B) l : (forall x, f x = []) -> flat_map f l = [].
+Proof. intros H. induction l as [|x l IH]; simpl; auto. rewrite H, IH. reflexivity. Qed.
+
+Lemma observe_empty U KS : observe U KS 0 empty = obs_empty.
+Proof.
+  unfold observe, obs_empty. f_equal; try reflexivity; apply flat_map_nil; intros; reflexivity.
+Qed.
+
+Lemma find_unique {A} (f : A -> N) l x :
+  NoDup (map f l) -> In x l -> find (fun y => f y =? f x) l = Some x.
+Proof.
+  induction l as [|y l IH]; simpl; intros Hn Hin; [destruct Hin|].
+  inversion Hn as [|? ? Hy Hn']; subst. destruct Hin as [->|Hin].
+  - rewrite N.eqb_refl. reflexivity.
+  - destruct (f y =? f x) eqn:E; auto. apply N.eqb_eq in E. exfalso. apply Hy.
+    rewrite E. apply in_map; auto.
+Qed.
+
+Lemma get_node_unique s n : Inv s -> In n (nodes s) -> get_node s (n_base n) = Some n.
+Proof. intros I H. unfold get_node. apply find_unique; auto. apply I. Qed.
+
+Lemma set_eqb_via {A} (eqb : A -> A -> bool) (eqb_eq : forall x y, eqb x y = true <-> x = y) a b c :
+  set_eqb eqb a c = true -> set_eqb eqb b c = true -> set_eqb eqb a b = true.
+Proof.
+  rewrite !(set_eqb_spec eqb eqb_eq). intros H1 H2 x. rewrite H1, H2. tauto.
+Qed.
+
+Lemma nonempty_row_In {A} b (l : list A) r : In r (nonempty_row b l) -> r = (b, l).
+Proof. destruct l; simpl; [intros []|intros [<-|[]]; auto]. Qed.
+
+Section Observe.
+  Variables (U KS : list N) (e0 : N) (s : state).
+  Hypothesis I : Inv s.
+  Hypothesis W : WU U s.
+
+  Lemma obs_nodes_In x :
+    In x (map n3 (o_nodes (observe U KS e0 s))) <->
+    In x (map (fun n => (sn_base n, sn_kind n, ver_n (sn_ver n))) (sp_nodes (abs s))).
+  Proof.
+    rewrite abs_nodes, map_map. simpl. rewrite !in_map_iff. split.
+    - intros [y [<- Hy]]. simpl in Hy. apply in_flat_map in Hy. destruct Hy as [b [Hb Hy]].
+      destruct (get_node s b) as [n|] eqn:G; [|destruct Hy]. destruct Hy as [<-|[]].
+      exists n. split; [|eapply get_node_In; eauto]. simpl.
+      rewrite (get_node_base s b n G). reflexivity.
+    - intros [n [<- Hn]]. exists (n_base n, k_ver (n_id n), n_kind n, ver_n (n_ver n)).
+      split; auto. simpl. apply in_flat_map. exists (n_base n). split; [apply W; auto|].
+      rewrite (get_node_unique s n I Hn). left; auto.
+  Qed.
+
+  Lemma obs_edges_row b :
+    In b U -> rowd b (o_edges (observe U KS e0 s)) = dedup edesc_eqb (q_edges s b).
+  Proof.
+    intros Hb. simpl. rewrite rowd_nonempty_rows. apply memN_In in Hb. rewrite Hb. reflexivity.
+  Qed.
+
+  Lemma obs_edges_row_In b x :
+    In b U -> (In x (rowd b (o_edges (observe U KS e0 s))) <-> In x (edges s) /\ (fb x = b \/ tb x = b)).
+  Proof.
+    intros Hb. rewrite obs_edges_row; auto. rewrite (gdedup_In edesc_eqb edesc_eqb_eq).
+    apply q_edges_In; auto.
+  Qed.
+
+  Lemma matches_spec_observe : matches_spec U KS (abs s) (observe U KS e0 s) = true.
+  Proof.
+    unfold matches_spec. rewrite !andb_true_iff. split; [split; [split|]|].
+    - apply (set_eqb_spec n3_eqb n3_eqb_eq). apply obs_nodes_In.
+    - apply forallb_In. intros b Hb. apply (set_eqb_spec sedge_eqb sedge_eqb_eq). intros se.
+      rewrite obs_edges_row; auto. rewrite <- q_edges_abs; auto. rewrite !in_map_iff.
+      split; intros [x [E Hx]]; exists x; split; auto;
+        apply (gdedup_In edesc_eqb edesc_eqb_eq); auto.
+    - apply forallb_In. intros b Hb. pose proof Hb as Hm. apply memN_In in Hm.
+      rewrite sp_has_abs. simpl. rewrite !has_row_cond_rows, !rowd_cond_rows, Hm.
+      destruct (has_node s b) eqn:Hn; simpl; auto.
+      rewrite q_children_abs, q_descendants_abs, !(set_eqb_refl N.eqb N.eqb_eq). simpl.
+      rewrite andb_true_r. apply (set_eqb_spec N.eqb N.eqb_eq). intros x. apply q_parents_abs; auto.
+    - apply forallb_In. intros kd Hk. simpl. rewrite rowd_nonempty_rows.
+      apply memN_In in Hk. rewrite Hk, q_find_by_kind_abs. apply (set_eqb_refl N.eqb N.eqb_eq).
+  Qed.
+
+  Lemma out_in_observe : out_in_ok (observe U KS e0 s) = true.
+  Proof.
+    unfold out_in_ok. apply forallb_In. intros r Hr. pose proof Hr as Hr'. simpl in Hr'.
+    apply in_flat_map in Hr'. destruct Hr' as [b [Hb Hr']]. apply nonempty_row_In in Hr'. subst r.
+    cbn [fst snd]. apply forallb_In. intros x Hx.
+    rewrite (gdedup_In edesc_eqb edesc_eqb_eq) in Hx. apply q_edges_In in Hx; auto.
+    destruct Hx as [Hin Hd]. destruct (proj2 W x Hin) as [Uf Ut].
+    rewrite !andb_true_iff. split; [split|].
+    - apply orb_true_iff. rewrite !N.eqb_eq. auto.
+    - apply (mem_spec edesc_eqb edesc_eqb_eq). apply obs_edges_row_In; auto.
+    - apply (mem_spec edesc_eqb edesc_eqb_eq). apply obs_edges_row_In; auto.
+  Qed.
+End Observe.
+
+Lemma obs_equiv_of_matches U KS sp a b :
+  matches_spec U KS sp a = true -> matches_spec U KS sp b = true -> obs_equiv U KS a b = true.
+Proof.
+  unfold matches_spec, obs_equiv. rewrite !andb_true_iff, !forallb_forall.
+  intros [[[A1 A2] A3] A4] [[[B1 B2] B3] B4]. split; [split; [split|]|].
+  - eapply (set_eqb_via n3_eqb n3_eqb_eq); eauto.
+  - intros u Hu. eapply (set_eqb_via sedge_eqb sedge_eqb_eq); eauto.
+  - intros u Hu. specialize (A3 u Hu). specialize (B3 u Hu). destruct (sp_has sp u).
+    + rewrite !andb_true_iff in A3, B3. rewrite !andb_true_iff.
+      destruct A3 as [[[_ A5] A6] A7]. destruct B3 as [[[_ B5] B6] B7].
+      split; [split|]; eapply (set_eqb_via N.eqb N.eqb_eq); eauto.
+    + rewrite !andb_true_iff, !negb_true_iff in A3, B3.
+      destruct A3 as [[X1 X2] X3]. destruct B3 as [[Y1 Y2] Y3].
+      rewrite !(no_row_rowd u) by auto. reflexivity.
+  - intros kd Hk. eapply (set_eqb_via N.eqb N.eqb_eq); eauto.
+Qed.
+
+(* two states with the same abstraction are observationally equivalent *)
+Lemma obs_equiv_same_abs U KS e1 e2 s1 s2 :
+  Inv s1 -> WU U s1 -> Inv s2 -> WU U s2 -> abs s1 = abs s2 ->
+  obs_equiv U KS (observe U KS e1 s1) (observe U KS e2 s2) = true.
+Proof.
+  intros I1 W1 I2 W2 E. apply (obs_equiv_of_matches U KS (abs s1)).
+  - apply matches_spec_observe; auto.
+  - rewrite E. apply matches_spec_observe; auto.
+Qed.
+
+Lemma ver_n_succ o v : ver_n o = v + 1 <-> o = Some v.
+Proof.
+  destruct o as [w|]; simpl; split; intros H; try discriminate; try lia.
+  - f_equal. lia. - inversion H. reflexivity.
+Qed.
+
+Section Listed.
+  Variables (U KS : list N) (e0 : N) (s : state).
+
+  Lemma obs_nodes_entry x :
+    In x (o_nodes (observe U KS e0 s)) <->
+    exists b n, In b U /\ get_node s b = Some n /\ x = (b, k_ver (n_id n), n_kind n, ver_n (n_ver n)).
+  Proof.
+    simpl. rewrite in_flat_map. split.
+    - intros [b [Hb H]]. destruct (get_node s b) as [n|] eqn:G; [|destruct H].
+      destruct H as [<-|[]]. exists b, n. auto.
+    - intros [b [n [Hb [G ->]]]]. exists b. split; auto. rewrite G. left; auto.
+  Qed.
+
+  Lemma node_listed_observe b :
+    node_listed b (observe U KS e0 s) = true <-> In b U /\ has_node s b = true.
+  Proof.
+    unfold node_listed. rewrite existsb_exists. split.
+    - intros [x [Hx H]]. apply obs_nodes_entry in Hx. destruct Hx as [u [n [Hu [G ->]]]].
+      apply N.eqb_eq in H. subst u. split; auto. rewrite has_get_node, G. reflexivity.
+    - intros [Hb Hn]. rewrite has_get_node in Hn. destruct (get_node s b) as [n|] eqn:G; [|discriminate].
+      exists (b, k_ver (n_id n), n_kind n, ver_n (n_ver n)). split; [|apply N.eqb_refl].
+      apply obs_nodes_entry. exists b, n. auto.
+  Qed.
+
+  Lemma node_listed_ver_observe b v :
+    node_listed_ver b v (observe U KS e0 s) = true <->
+    In b U /\ exists n, get_node s b = Some n /\ n_ver n = Some v.
+  Proof.
+    unfold node_listed_ver. rewrite existsb_exists. split.
+    - intros [x [Hx H]]. apply obs_nodes_entry in Hx. destruct Hx as [u [n [Hu [G ->]]]].
+      apply andb_true_iff in H. destruct H as [H1 H2]. apply N.eqb_eq in H1, H2. subst u.
+      split; auto. exists n. split; auto. apply ver_n_succ; auto.
+    - intros [Hb [n [G V]]].
+      exists (b, k_ver (n_id n), n_kind n, ver_n (n_ver n)). split.
+      + apply obs_nodes_entry. exists b, n. auto.
+      + rewrite N.eqb_refl. simpl. apply N.eqb_eq. apply ver_n_succ; auto.
+  Qed.
+
+  Hypothesis I : Inv s.
+
+  Lemma obs_edges_entry r x :
+    In r (o_edges (observe U KS e0 s)) -> In x (snd r) -> In x (edges s).
+  Proof.
+    simpl. intros Hr Hx. apply in_flat_map in Hr. destruct Hr as [b [Hb Hr]].
+    apply nonempty_row_In in Hr. subst r. simpl in Hx.
+    rewrite (gdedup_In edesc_eqb edesc_eqb_eq) in Hx. apply q_edges_In in Hx; tauto.
+  Qed.
+
+  Lemma edge_listed_observe f k t :
+    edge_listed f k t (observe U KS e0 s) = true ->
+    exists x, In x (edges s) /\ proj_edge x = Se f k t.
+  Proof.
+    unfold edge_listed. rewrite existsb_exists. intros [r [Hr H]].
+    apply existsb_exists in H. destruct H as [x [Hx H]]. apply sedge_eqb_eq in H.
+    exists x. split; auto. eapply obs_edges_entry; eauto.
+  Qed.
+
+  Lemma touches_listed_observe b :
+    touches_listed b (observe U KS e0 s) = true ->
+    exists x, In x (edges s) /\ (fb x = b \/ tb x = b).
+  Proof.
+    unfold touches_listed. rewrite existsb_exists. intros [r [Hr H]].
+    apply existsb_exists in H. destruct H as [x [Hx H]]. apply orb_true_iff in H.
+    rewrite !N.eqb_eq in H. exists x. split; auto. eapply obs_edges_entry; eauto.
+  Qed.
+End Listed.
+
+Lemma get_node_set_node_other s m b : n_base m <> b -> get_node (set_node s m) b = get_node s b.
+Proof.
+  intros H. unfold get_node, set_node. simpl. induction (nodes s) as [|x l IH]; simpl.
+  - apply N.eqb_neq in H. rewrite H. reflexivity.
+  - destruct (n_base x =? n_base m) eqn:E; simpl.
+    + apply N.eqb_eq in E. rewrite E. apply N.eqb_neq in H. rewrite H. auto.
+    + destruct (n_base x =? b); auto.
+Qed.
+
+Lemma get_node_add_builtin_keep s k kd b n :
+  get_node s b = Some n -> get_node (add_builtin s k kd) b = Some n.
+Proof.
+  intros G. unfold add_builtin. destruct (has_node s (k_base k)) eqn:H; auto.
+  rewrite get_node_set_node_other; auto. simpl. intros E. unfold n_base in E. simpl in E. subst b.
+  rewrite has_get_node, G in H. discriminate.
+Qed.
+
+Lemma fold_add_edge_nodes id kind l : forall s,
+  nodes (fold_left (fun st f => add_edge st id f kind) l s) = nodes s.
+Proof. induction l as [|f l IH]; intros s; simpl; auto. rewrite IH. apply add_edge_nodes. Qed.
+
+Lemma get_node_nodes_eq s s' b : nodes s' = nodes s -> get_node s' b = get_node s b.
+Proof. intros H. unfold get_node. rewrite H. reflexivity. Qed.
+
+Lemma sp_remove_node_absent sp b : sp_has sp b = false -> sp_remove_node sp b = sp.
+Proof. intros H. unfold sp_remove_node. rewrite H. reflexivity. Qed.
+
+Lemma direct_ok_model U KS e e' s o :
+  Inv s -> WU U s -> in_universe U o = true ->
+  direct_ok U KS (observe U KS e s) o (observe U KS e' (step sc s o)) = true.
+Proof.
+  intros I W Hu.
+  pose proof (step_Inv s o I) as I'. pose proof (WU_step U s o I W Hu) as W'.
+  destruct o as [k kind|kind k|k fields|k ty bk|k prim vals|f t kind|f t ko|k]; simpl direct_ok; auto.
+  - (* AddBuiltin *)
+    simpl in Hu, I', W'. apply memN_In in Hu. apply andb_true_iff. split.
+    + apply node_listed_observe. split; auto. simpl. unfold add_builtin.
+      destruct (has_node s (k_base k)) eqn:H; auto.
+      apply (has_node_set_self s (Nd k kind None)).
+    + destruct (node_listed (k_base k) (observe U KS e s)) eqn:L; auto.
+      apply node_listed_observe in L. destruct L as [_ L].
+      apply obs_equiv_same_abs; auto. simpl. unfold add_builtin. rewrite L. reflexivity.
+  - (* AddNode *)
+    simpl in Hu, I', W'. apply memN_In in Hu. apply andb_true_iff. split.
+    + apply node_listed_ver_observe. split; auto. simpl. apply add_node_version.
+    + destruct (node_listed_ver (k_base k) (k_ver k) (observe U KS e s)) eqn:L; auto.
+      apply node_listed_ver_observe in L. destruct L as [_ [n [G V]]].
+      apply obs_equiv_same_abs; auto. simpl. unfold add_node. rewrite G, V. simpl.
+      rewrite N.eqb_refl. reflexivity.
+  - (* AddStruct *)
+    simpl in Hu. apply andb_true_iff in Hu. destruct Hu as [Hu _]. apply memN_In in Hu.
+    apply node_listed_ver_observe. split; auto. simpl.
+    destruct (add_node_version s k KStruct) as [n [G V]].
+    destruct (add_node sc s k KStruct) as [s1 id]. simpl in G.
+    exists n. split; auto. rewrite (get_node_nodes_eq s1); auto. apply fold_add_edge_nodes.
+  - (* AddField *)
+    simpl in Hu. apply andb_true_iff in Hu. destruct Hu as [Hu _]. apply memN_In in Hu.
+    apply node_listed_ver_observe. split; auto. simpl.
+    destruct (add_node_version s k KField) as [n [G V]].
+    destruct (add_node sc s k KField) as [s1 id]. simpl in G.
+    exists n. split; auto. destruct bk.
+    + rewrite (get_node_nodes_eq (add_builtin s1 ty n0)); [|apply add_edge_nodes].
+      apply get_node_add_builtin_keep; auto.
+    + destruct (has_node s1 (k_base ty)); auto.
+      rewrite (get_node_nodes_eq s1); auto. apply add_edge_nodes.
+  - (* AddEdge *)
+    destruct (edge_listed (k_base f) kind (k_base t) (observe U KS e s)) eqn:L; auto.
+    apply edge_listed_observe in L; auto. destruct L as [x [Hx Px]].
+    apply obs_equiv_same_abs; auto. simpl. rewrite abs_add_edge. symmetry.
+    apply sp_add_edge_present. rewrite abs_edges. apply existsb_exists.
+    exists (proj_edge x). split; [apply in_map; auto|]. apply sedge_eqb_eq. auto.
+  - (* RemoveNode *)
+    simpl in Hu, I', W'. apply memN_In in Hu.
+    destruct (remove_node_post (rn_fuel s) s k I (rn_fuel_ok s)) as [X P].
+    assert (F : forall x, has_node (remove_node sc (rn_fuel s) s k) x = has_node s x && negb (memN x X))
+      by (intros; apply has_node_filter; apply P).
+    assert (Gone : has_node (remove_node sc (rn_fuel s) s k) (k_base k) = false).
+    { rewrite F. destruct (has_node s (k_base k)) eqn:H; auto.
+      pose proof (rp_root _ _ _ _ P H) as HX. apply memN_In in HX. rewrite HX. reflexivity. }
+    apply andb_true_iff. split.
+    + apply negb_true_iff. destruct (node_listed _ _) eqn:L; auto.
+      apply node_listed_observe in L. simpl in L. destruct L as [_ L]. congruence.
+    + destruct (node_listed (k_base k) (observe U KS e s)) eqn:L.
+      * apply node_listed_observe in L. destruct L as [_ L].
+        pose proof (rp_root _ _ _ _ P L) as HX. apply memN_In in HX.
+        apply negb_true_iff. destruct (touches_listed _ _) eqn:T; auto.
+        apply touches_listed_observe in T; auto. destruct T as [x [Hx Hd]]. simpl in Hx.
+        rewrite (rp_edges _ _ _ _ P) in Hx. apply filter_In in Hx. destruct Hx as [_ Hx].
+        unfold touches in Hx. destruct Hd as [Hd|Hd]; rewrite <- Hd in HX; rewrite HX in Hx;
+          simpl in Hx; rewrite ?orb_true_r in Hx; discriminate.
+      * assert (H : has_node s (k_base k) = false).
+        { destruct (has_node s (k_base k)) eqn:H; auto.
+          assert (node_listed (k_base k) (observe U KS e s) = true)
+            by (apply node_listed_observe; auto). congruence. }
+        apply obs_equiv_same_abs; auto. simpl. rewrite abs_remove_node; auto using rn_fuel_ok.
+        symmetry. apply sp_remove_node_absent. rewrite sp_has_abs. auto.
+Qed.
+
+Lemma prop_from_model U KS : forall h s e,
+  Inv s -> WU U s -> forallb (in_universe U) h = true ->
+  prop_from U KS (abs s) (observe U KS e s) h (observe_run sc U KS s h) = true.
+Proof.
+  induction h as [|o h IH]; intros s e I W Hu; simpl; auto.
+  simpl in Hu. apply andb_true_iff in Hu. destruct Hu as [Ho Hh].
+  pose proof (step_Inv s o I) as I'. pose proof (WU_step U s o I W Ho) as W'.
+  rewrite <- (abs_step s o I).
+  rewrite out_in_observe, matches_spec_observe, direct_ok_model; auto.
+  simpl. apply IH; auto.
+Qed.
+
+(* the property oracle accepts the model's observations of ANY history over the universe *)
+Theorem prop_C17_model U KS h :
+  forallb (in_universe U) h = true ->
+  prop_C17 U KS h (observe_run sc U KS empty h) = true.
+Proof.
+  intros Hu. unfold prop_C17. rewrite <- (observe_empty U KS).
+  change sp_empty with (abs empty). apply prop_from_model; auto using Inv_empty, WU_empty.
+Qed.
+
+End WithSched.
+
+(* ------------------------------------------------------------------ the unrepaired code (F2, F15) *)
+
+Definition kA : key := K 0 1.  Definition kB : key := K 1 1.  Definition kB2 : key := K 1 2.
+
+Definition f2_pre : state :=
+  run sched_id [AddNode KStruct kA; AddNode KStruct kB; AddEdge kA kB ETy; AddEdge kA kB ERef].
+Definition f2_legacy : state := remove_edge_legacy f2_pre kA kB (Some ETy).
+Definition f2_edge : edesc := Ed kA kB ERef 1.
+
+(* F2: RemoveEdge(from, to, &kind) while an edge of another kind links the pair *)
+Theorem legacy_remove_edge_refuted :
+  Inv f2_pre /\ ~ Inv f2_legacy /\
+  In f2_edge (q_edges f2_legacy (fb f2_edge)) /\ ~ In f2_edge (q_edges f2_legacy (tb f2_edge)) /\
+  q_children f2_legacy 0 = [1] /\ q_parents f2_legacy 1 = [].
+Proof.
+  split; [apply (run_Inv sched_id sched_id_ok)|]. split.
+  - intros I. assert (L : Linked f2_legacy 0 1) by (exists f2_edge; vm_compute; auto).
+    apply (inv_deps _ I) in L. destruct L as [k [Hin _]]. vm_compute in Hin. exact Hin.
+  - split; [vm_compute; auto|]. split; [vm_compute; auto|]. split; reflexivity.
+Qed.
+
+(* the repaired RemoveEdge on the same input *)
+Example fixed_remove_edge_example :
+  let s := remove_edge f2_pre kA kB (Some ETy) in
+  q_edges s 0 = [f2_edge] /\ dedup edesc_eqb (q_edges s 1) = [f2_edge] /\ q_parents s 1 = [0].
+Proof. vm_compute. auto. Qed.
+
+(* F15: an edge whose target key carries a stale file version *)
+Definition f15_state : state := run sched_id [AddNode KStruct kB2; AddNode KStruct kA; AddEdge kA kB ETy].
+
+Theorem legacy_parents_refuted :
+  q_get f15_state kB = Some (Nd kB2 KStruct (Some 2)) /\
+  q_children f15_state 0 = [1] /\ q_edges f15_state 1 = [Ed kA kB ETy 0] /\
+  q_parents_legacy f15_state kB2 = [] /\ q_parents f15_state 1 = [0].
+Proof. vm_compute. auto 6. Qed.
+
+(* F15, second half: RemoveEdge under another version of the target key leaves a stale
+   deps entry behind (which later keeps an orphan alive) *)
+Definition f15_pre : state := run sched_id [AddEdge kA kB ETy; AddEdge kA kB2 ETy].
+Theorem legacy_remove_edge_stale_refuted :
+  Inv f15_pre /\ edges (remove_edge_legacy f15_pre kA kB None) = [] /\
+  deps (remove_edge_legacy f15_pre kA kB None) = [(0, kB2)] /\
+  ~ Inv (remove_edge_legacy f15_pre kA kB None) /\ deps (remove_edge f15_pre kA kB None) = [].
+Proof.
+  split; [apply (run_Inv sched_id sched_id_ok)|]. split; [reflexivity|]. split; [reflexivity|]. split; [|reflexivity].
+  intros I. destruct (inv_deps _ I 0 1) as [H _].
+  destruct H as [e [Hin _]]; [exists kB2; vm_compute; auto|]. vm_compute in Hin. exact Hin.
+Qed.
+
+(* ------------------------------------------------------------------ a worked example *)
+
+Definition demo_U : list N := [0; 1; 2; 3; 4; 5; 6; 7; 8].
+Definition demo_KS : list N := [0; 1; 2; 3; 4; 5; 6].
+Definition demo : list op :=
+  [AddStruct (K 0 1) [K 1 1]; AddField (K 1 1) (K 5 0) (Some 5); AddEnum (K 2 1) (K 5 0) [K 3 1];
+   AddNode 3 (K 4 1); AddEdge (K 4 1) (K 2 1) 0; AddEdge (K 4 1) (K 4 1) 1;
+   AddNode 3 (K 4 1); RemoveNode (K 5 0)].
+
+(* removing `string` evicts the field, its struct, the enum value and the enum, but not
+   the alias that still depends on itself; the oracle accepts the model's observations and
+   rejects the same run with the last observation replaced by "nothing happened" *)
+Example demo_nonvacuous :
+  map n_base (nodes (run sched_id (removelast demo))) = [0; 1; 5; 2; 3; 4] /\
+  map n_base (nodes (run sched_id demo)) = [4] /\
+  map proj_edge (edges (run sched_id demo)) = [Se 4 1 4] /\
+  Inv (run sched_id demo) /\
+  prop_C17 demo_U demo_KS demo (observe_run sched_id demo_U demo_KS empty demo) = true /\
+  (let os := observe_run sched_id demo_U demo_KS empty demo in
+   prop_C17 demo_U demo_KS demo (removelast os ++ [nth 6 os obs_empty]) = false).
+Proof.
+  split; [reflexivity|]. split; [reflexivity|]. split; [reflexivity|].
+  split; [apply (run_Inv sched_id sched_id_ok)|]. split; vm_compute; reflexivity.
+Qed.
+
+
+(* ------------------------------------------------------------------ order independence *)
+
+Theorem remove_node_order_independent sc1 sc2 fuel s k :
+  sched_ok sc1 -> sched_ok sc2 -> Inv s -> (List.length (rdeps s) < fuel)%nat ->
+  abs (remove_node sc1 fuel s k) = abs (remove_node sc2 fuel s k).
+Proof. intros H1 H2 I Hf. rewrite !abs_remove_node; auto. Qed.
+
+Theorem run_order_independent sc1 sc2 h :
+  sched_ok sc1 -> sched_ok sc2 -> abs (run sc1 h) = abs (run sc2 h).
+Proof. intros H1 H2. rewrite !abs_run; auto. Qed.
